@@ -271,6 +271,7 @@ struct State {
     last_cmp: bool,
     log: Rc<EvalLog>,
     optimizers: Vec<(u64, GradientDescent)>,
+    costs: Vec<(String, CostFunction)>,
 }
 
 impl State {
@@ -352,6 +353,7 @@ fn main() {
         last_cmp: false,
         log: Rc::new(EvalLog { entries: RefCell::new(vec![]), budget: Cell::new(0) }),
         optimizers: vec![],
+        costs: vec![],
     };
     for line in f.lines() {
         let line = line.unwrap();
@@ -417,6 +419,7 @@ fn run_step(st: &mut State, step: &Value) -> Value {
             st.hs.clear();
             st.layers.clear();
             st.optimizers.clear();
+            st.costs.clear();
             st.last_cmp = false;
         }
         // ---- construction
@@ -532,7 +535,11 @@ fn run_step(st: &mut State, step: &Value) -> Value {
         }
         "cost" => {
             let kind = step["kind"].as_str().unwrap();
-            let cf: CostFunction = if kind == "mse" { cost::mse() } else { cost::cross_entropy() };
+            // one cost closure per kind and case, reused by later cost steps (as a training loop reuses its closure)
+            if !st.costs.iter().any(|(k, _)| k == kind) {
+                st.costs.push((kind.to_string(), if kind == "mse" { cost::mse() } else { cost::cross_entropy() }));
+            }
+            let cf: &CostFunction = &st.costs.iter().find(|(k, _)| k == kind).unwrap().1;
             newh = st.with_args(&args, |xs| guarded!(cf(xs[0], xs[1])));
         }
         // ---- handles
